@@ -32,7 +32,7 @@ enum Second {
 fn tuning(tier: Tier) -> W1Tuning {
     let mut allowed = gen::problem::Features::all();
     allowed.req_breaks = false;
-    allowed.relations = false;
+    // (relations are on since round 4: a released vehicle leaves jobs of `any` relations unassigned in the stored document)
     allowed.unreachable_random = false;
     allowed.nonmetric = false;
     match tier {
